@@ -271,28 +271,12 @@ Theorem C15_div_rem_long_zero_divisor : forall (F : Type) (FO : FieldOps F) (FL 
 Proof. exact @div_rem_long_zero_divisor. Qed.
 
 (* ------------------------------------------------------------------------------------------ *)
-(* f. div_rem (Newton inversion): the intended statement
-
-     forall a b, degree_plus_one b <> 0 ->
-       exists q r, div_rem a b = Some (q, r) /\ (forall x, peval a x = q(x) b(x) + r(x)) /\
-                   degree_plus_one r < degree_plus_one b
-
-   is REFUTED by the faithful model (and by the implementation: same outputs in the correspondence
-   run): (X^3 + X) / (X^2 + 1) returns q = 1 and a remainder of degree 3; inv_mod_xn(1 - X^2, 5)
-   returns 1 + X^2 + X^3, and inv_mod_xn(1 - X^2, 4) panics. *)
-Theorem C15_div_rem_newton_refuted :
-  exists a b : list Fp, degree_plus_one b <> 0%nat /\ div_rem a b <> None /\
-    forall q r, div_rem a b = Some (q, r) -> ~ (degree_plus_one r < degree_plus_one b)%nat.
-Proof. exact div_rem_newton_refuted. Qed.
-
-Theorem C15_inv_mod_xn_refuted :
-  exists (p : list Fp) (n : nat), (0 < n)%nat /\ nth 0 p fzero <> fzero /\
-    (exists c, inv_mod_xn p n = Some c /\ firstn n (pmul p c) <> fone :: repeat fzero (n - 1)).
-Proof. exact inv_mod_xn_refuted. Qed.
-
-Theorem C15_inv_mod_xn_panics :
-  exists (p : list Fp) (n : nat), (0 < n)%nat /\ nth 0 p fzero <> fzero /\ inv_mod_xn p n = None.
-Proof. exact inv_mod_xn_panics. Qed.
+(* f. div_rem (Newton inversion) and inv_mod_xn.
+   History: on the code before /repo commit 119d559 the faithful model REFUTED the defining identity
+   (former theorems C15_div_rem_newton_refuted, C15_inv_mod_xn_refuted, C15_inv_mod_xn_panics:
+   inv_mod_xn appended the trimmed Newton correction at the wrong offset - wrong inverse or a panic in
+   drain(n..) -, and div_rem trimmed rev_q before reversing it, losing low-order zero coefficients of
+   the quotient).  Both defects were repaired by that commit; Model/PolyOps.v mirrors the repaired code. *)
 
 (* ------------------------------------------------------------------------------------------ *)
 (* interpolation: partial *)
